@@ -22,7 +22,7 @@ import (
 // TrieOp is one step. Ops that refer to current members ("delprefix", "addext", "addprefix")
 // carry indices that the interpreter resolves against the model, so the case stays a pure value.
 type TrieOp struct {
-	Op  string `json:"op"` // add | del | delprefix | addext | addprefix | json | addall (S + every byte value) | addmany (S + each of the first Idx byte values from Cut) | delmany (all of those except the Cut-th)
+	Op  string `json:"op"` // add | del | delprefix | addext | addprefix | json | addall (S + every byte value) | addmany (S + each of the first Idx byte values from Cut) | delmany (all of those except the Cut-th) | addbulk / delbulk (Idx three-byte keys below S; every second one deleted)
 	S   gen.B  `json:"s,omitempty"`
 	Idx int    `json:"idx,omitempty"`
 	Cut int    `json:"cut,omitempty"`
@@ -541,6 +541,25 @@ func checkC15(c C15Case, o *Obs) error {
 				}
 			}
 			o.ClassIf(op.Op == "delmany", "wide node shrunk to one child")
+		case "addbulk", "delbulk":
+			// Idx three-byte keys below S (41 symbols per position, in an order that is not the
+			// sorted one); delbulk deletes every second of them again
+			cnt := max(1, min(op.Idx, 41*41*41))
+			desc = fmt.Sprintf("%s(%q, %d keys)", op.Op, []byte(op.S), cnt)
+			for j := 0; j < cnt; j++ {
+				i := (j * 7919) % cnt
+				key := string(op.S) + string([]byte{byte(48 + i%41), byte(48 + (i/41)%41), byte(48 + (i/1681)%41)})
+				if op.Op == "addbulk" {
+					tr.Add([]byte(key))
+					m.add(key)
+				} else if i%2 == 0 {
+					got := tr.Delete([]byte(key))
+					if want := m.del(key); got != want {
+						return fmt.Errorf("step %d %s: Delete(%q) returned %v, want %v (history %v)", step, desc, key, got, want, abbrevHist(hist))
+					}
+				}
+			}
+			o.Class("tens of thousands of members")
 		case "addall":
 			// a node with a child for every byte value
 			desc = fmt.Sprintf("Add(%q+b) for every byte b", []byte(op.S))
@@ -571,6 +590,9 @@ func checkC15(c C15Case, o *Obs) error {
 		what := fmt.Sprintf("after step %d of history %v", step, abbrevHist(hist))
 		if err := observeTrie(tr, m, alphabet, what); err != nil {
 			return err
+		}
+		if m.size() > 20000 && step != len(c.Ops)-1 {
+			continue // bulk histories: the JSON form is rebuilt at "json" steps and at the end only
 		}
 		// A trie rebuilt from the JSON form is indistinguishable.
 		fresh, err := rebuildTrie(tr, step%2 == 1, m.longest(), step+len(c.Ops))
@@ -684,6 +706,15 @@ func exhaustiveC15(thorough bool, emit func(C15Case) bool) {
 		h := []TrieOp{{Op: "add", S: cat(l, "xx")}, {Op: "add", S: l}, {Op: "del", S: cat(l, "x")}, {Op: "add", S: cat(l, "w")}, {Op: "add", S: cat(l, "xy")},
 			{Op: "add", S: cat(l, "wq")}, {Op: "del", S: cat(l, "w")}, {Op: "add", S: l[:n-1]}, {Op: "add", S: cat(l, "a")}}
 		if !emit(C15Case{Alphabet: gen.B("abwx"), Ops: h}) || !emit(C15Case{Alphabet: gen.B("abwx"), Ops: h, Rebuild: true}) {
+			return
+		}
+	}
+	// more members than a 16-bit counter holds (41^3 = 68921 three-byte keys, and 66000 below a
+	// common prefix), half of them deleted again, then ordinary operations
+	for _, h := range [][]TrieOp{
+		{{Op: "add", S: gen.B("zz")}, {Op: "addbulk", S: gen.B("pre"), Idx: 66000}, {Op: "del", S: gen.B("pre0")}, {Op: "delbulk", S: gen.B("pre"), Idx: 66000}, {Op: "json"}, {Op: "add", S: gen.B("pre")}},
+	} {
+		if !emit(C15Case{Alphabet: gen.B("01"), Ops: h}) {
 			return
 		}
 	}
